@@ -1144,6 +1144,55 @@ func allUnescOK(parts []string) bool {
 // 3. Lemmas
 // ---------------------------------------------------------------------------
 
+// --- Property C12, second half: the normal form is canonical, idempotent and meaning-preserving ---
+
+// The normal form of a well-escaped string is well-escaped.
+//@ lemma nfWell(s string)
+//@   requires well: wellEscaped(s)
+//@   ensures well: wellEscaped(nf(s))
+//@   decreases len(s)
+//@   induct s[3:]; s[1:]
+//@   trigger wellEscaped(nf(s))
+
+// Normalizing twice is normalizing once.
+//@ lemma nfIdem(s string)
+//@   requires well: wellEscaped(s)
+//@   ensures idem: nf(nf(s)) == nf(s)
+//@   decreases len(s)
+//@   induct s[3:]; s[1:]
+//@   trigger nf(nf(s))
+
+// Normalization does not change the octets the path denotes.
+//@ lemma nfDecode(s string)
+//@   requires well: wellEscaped(s)
+//@   ensures same: pctDecode(nf(s)) == pctDecode(s)
+//@   decreases len(s)
+//@   induct s[3:]; s[1:]
+//@   trigger pctDecode(nf(s))
+
+// The normal form is canonical (upper-case hex, nothing escaped that need not be).
+//@ lemma nfCanonical(s string)
+//@   requires well: wellEscaped(s)
+//@   ensures canon: canonicalPath(nf(s))
+//@   decreases len(s)
+//@   induct s[3:]; s[1:]
+//@   trigger canonicalPath(nf(s))
+
+// Property-level harness: what a caller of NormalizeEscapedPath gets, in the property's words.
+//@ func verifNormalizeTwice(s string) (a string, b string, ok1 bool, ok2 bool)
+//@   uses nfIdem, nfWell, nfDecode, nfCanonical
+//@   ensures idempotent: ok1 ==> ok2 && b == a
+//@   ensures meaning:    ok1 ==> pctDecode(a) == pctDecode(s)
+//@   ensures canonical:  ok1 ==> canonicalPath(a)
+func verifNormalizeTwice(s string) (a, b string, ok1, ok2 bool) {
+	a, ok1 = NormalizeEscapedPath(s)
+	if !ok1 {
+		return a, "", false, false
+	}
+	b, ok2 = NormalizeEscapedPath(a)
+	return a, b, ok1, ok2
+}
+
 // A canonical escape is its own normal form.
 //@ lemma canonTokNf(x string)
 //@   requires canonTok(x)
